@@ -35,8 +35,8 @@ impl Letter {
     }
 }
 
-/// Do the parser states reached by `ha` and `hb` behave differently? Every continuation of length
-/// <= 2 over the whole alphabet and of length 3 over the core alphabet is executed from both; the
+/// Do the parser states reached by `ha` and `hb` behave differently? Every single letter of the
+/// alphabet and every sequence of 2 and 3 letters of the core alphabet is executed from both; the
 /// first continuation with different results is returned.
 pub fn behaviour_differs(letters: &[Letter], ha: &[usize], hb: &[usize]) -> Option<Vec<usize>> {
     let all: Vec<usize> = (0..letters.len()).collect();
@@ -50,15 +50,14 @@ pub fn behaviour_differs(letters: &[Letter], ha: &[usize], hb: &[usize]) -> Opti
             .map(|&a| p.parse(&letters[a].line, letters[a].decode).digest())
             .collect()
     };
+    // every single letter, and every sequence of 2 and 3 core letters
     let mut conts: Vec<Vec<usize>> = Vec::new();
     for &a in &all {
         conts.push(vec![a]);
-        for &b in &all {
-            conts.push(vec![a, b]);
-        }
     }
     for &a in &core {
         for &b in &core {
+            conts.push(vec![a, b]);
             for &c in &core {
                 conts.push(vec![a, b, c]);
             }
@@ -331,6 +330,8 @@ pub struct ExploreCfg {
     pub letters: Vec<Letter>,
     pub max_states: usize,
     pub max_depth: usize,
+    /// wall-clock budget; if it is hit the report says "not closed" instead of claiming closure
+    pub max_secs: u64,
 }
 
 pub struct ExploreReport {
@@ -346,6 +347,7 @@ pub struct ExploreReport {
     pub violations: Vec<EViolation>,
     pub samples: Vec<J>,
     pub debug_variants: u64,
+    pub stopped_by: &'static str,
     pub wall_s: f64,
 }
 
@@ -381,6 +383,7 @@ pub fn explore(cfg: &ExploreCfg) -> ExploreReport {
         violations: Vec::new(),
         samples: Vec::new(),
         debug_variants: 0,
+        stopped_by: "",
         wall_s: 0.0,
     };
     let mut viol: BTreeMap<String, EViolation> = BTreeMap::new();
@@ -391,13 +394,21 @@ pub fn explore(cfg: &ExploreCfg) -> ExploreReport {
         queue.push_back(0);
     }
     let mut findings: Findings = Vec::new();
+    let mut trace_cache: HashMap<(String, String), Option<Vec<usize>>> = HashMap::new();
+    let deadline = t0 + std::time::Duration::from_secs(cfg.max_secs);
     while let Some(si) = queue.pop_front() {
+        if std::time::Instant::now() > deadline {
+            rep.closed = false;
+            rep.stopped_by = "time budget";
+            break;
+        }
         let hist = witness[si].clone();
         if hist.len() > rep.max_depth {
             rep.max_depth = hist.len();
         }
         if hist.len() >= cfg.max_depth {
             rep.closed = false;
+            rep.stopped_by = "depth cap";
             continue;
         }
         for (ai, l) in letters.iter().enumerate() {
@@ -423,7 +434,17 @@ pub fn explore(cfg: &ExploreCfg) -> ExploreReport {
             // A Debug difference after a no-trace line is not yet a verdict (C17 speaks about results,
             // not representation): compare the two states behaviourally.
             if findings.iter().any(|(_, sig, _)| sig.starts_with("asm.trace-")) {
-                match behaviour_differs(letters, &hist, &full) {
+                // the verdict depends only on the two parser states: cache it per (before, after)
+                let key = (d0.clone(), d1.clone());
+                let verdict = match trace_cache.get(&key) {
+                    Some(v) => v.clone(),
+                    None => {
+                        let v = behaviour_differs(letters, &hist, &full);
+                        trace_cache.insert(key, v.clone());
+                        v
+                    }
+                };
+                match verdict {
                     Some(cont) => {
                         for (_, sig, why) in findings.iter_mut() {
                             if sig.starts_with("asm.trace-") {
@@ -477,6 +498,7 @@ pub fn explore(cfg: &ExploreCfg) -> ExploreReport {
             if !seen.contains_key(&key) {
                 if seen.len() >= cfg.max_states {
                     rep.closed = false;
+                    rep.stopped_by = "state cap";
                     continue;
                 }
                 let id = witness.len();
@@ -538,6 +560,7 @@ impl ExploreReport {
             ("traces_validated_against_impl", J::u(self.transitions)),
             ("max_depth", J::u(self.max_depth as u64)),
             ("closed", J::Bool(self.closed)),
+            ("stopped_by", J::s(self.stopped_by)),
             (
                 "outcomes",
                 J::Obj(self.hist.iter().map(|(k, v)| (k.to_string(), J::u(*v))).collect()),
